@@ -192,6 +192,17 @@ func cmdRoleRun(args []string) int {
 			fstatus.ServeHTTP(w, req) // a node that is not the leader
 			return
 		}
+		if m == "cut" {
+			// a leader that dies after the head of its answer: 200 OK, a body announced, the connection closed in the middle of it
+			if hj, ok := w.(http.Hijacker); ok {
+				if conn, buf, err := hj.Hijack(); err == nil {
+					buf.WriteString("HTTP/1.1 200 OK\r\nContent-Type: application/json\r\nContent-Length: 64\r\n\r\n{\"rev")
+					buf.Flush()
+					conn.Close()
+					return
+				}
+			}
+		}
 		lstatus.ServeHTTP(w, req)
 	}))
 	defer srv.Close()
@@ -212,7 +223,7 @@ func cmdRoleRun(args []string) int {
 	ncases := 0
 	for _, role := range []string{"leader", "follower"} {
 		for _, proxy := range []string{"on", "off"} {
-			for _, lstate := range []string{"reachable", "unreachable", "error"} {
+			for _, lstate := range []string{"reachable", "unreachable", "error", "cut"} {
 				for _, me := range methods {
 					ncases++
 					env := kb.NewEnv(kb.Options{Engine: eng, KeyNames: defaultKeyNames, Gated: false, Record: false, Base: 100, Etcd: true})
